@@ -82,13 +82,38 @@ def generate(rng, tier):
         k = rng.choice([1, 2, 3, 4, 6, 9, 20])
         w = rng.choice([1, 1, 2])
         pool = [rand_scalar(rng) for _ in range(rng.choice([1, 2, 3, 5]))]
+        if rng.random() < 0.15:
+            pool += [float('inf'), float('-inf')]      # since fix e767c32 the infinities keep their native place under cmp
         keys = [tuple(rng.choice(pool) for _ in range(w)) for _ in range(k)]
         yield dict(tag='dictable.sort', lines=['(cmp sortidx %s)' % enc(keys)])
+    # dictable.sort by a key FUNCTION of the columns
+    for _ in range(120 if tier == 'quick' else 3000):
+        k = rng.choice([1, 2, 3, 4, 6, 9])
+        pool = [rand_scalar(rng) for _ in range(rng.choice([1, 2, 3, 5]))]
+        keys = [tuple(rng.choice(pool) for _ in range(2)) for _ in range(k)]
+        yield dict(tag='dictable.sort-by-function', lines=['(cmp sortfn %s %s)' % (enc(keys), rng.choice(['swap', 'first', 'pair']))])
+    # python's native order against the reference model `Cell.native` / `nativeArr` (NaN excluded: not an order)
+    NS = [None, True, False, 0, 1, -1, 2, 1.0, 2.5, -0.25, float('inf'), float('-inf'), '', 'a', 'b', 'ab', D(2020, 1, 1), D(2020, 1, 2, 3),
+          2 ** 53, 2 ** 53 + 1, float(2 ** 53)]
+    for x in NS:
+        for y in NS:
+            yield dict(tag='native-scalars', lines=['(cmp native %s %s)' % (enc(x), enc(y))])
+    for _ in range(300 if tier == 'quick' else 6000):
+        w = rng.choice([0, 1, 2, 3])
+        xs = tuple(rng.choice(NS) for _ in range(w))
+        ys = tuple(rng.choice(NS) if rng.random() < 0.5 else xs[i] for i in range(w))
+        if rng.random() < 0.15:
+            ys = ys[:-1] if ys and rng.random() < 0.5 else ys + (rng.choice(NS),)
+        yield dict(tag='native-tuples', lines=['(cmp native %s %s)' % (enc(xs), enc(ys))])
     n = 100 if tier == 'quick' else 3000
     vals = [None, 1, 2, 3, 'a', 'b', 'c', 2.5]
     for _ in range(n):
         w = rng.choice([1, 2])
         orders = [rng.sample(vals, rng.choice([0, 1, 2, 3, 5, 6, 8])) for _ in range(w)]
+        if rng.random() < 0.25:
+            # an order with a repeated value / hash-equal numerics (1, 1.0, True are one dict key): the LAST position counts
+            j = rng.randrange(w)
+            orders[j] = orders[j] + [rng.choice(orders[j] + [1.0, True, 2.0])] + rng.sample(vals, rng.choice([0, 1]))
         k = rng.choice([2, 2, 3, 4, 7])
         rows = [[rng.choice(vals) for _ in range(w)] for _ in range(k)]
         yield dict(tag='dictable.sort-byval', lines=['(cmp byvalidx %s %s)' % (enc(orders), enc(rows))])
@@ -116,6 +141,9 @@ def run_line(state, sx):
     op, args = sx[1], sx[2:]
     if op == 'cmp':
         return 'ok I:%d' % pyg_base.cmp(proto.dec(args[0]), proto.dec(args[1]))
+    if op == 'native':
+        a, b = proto.dec(args[0]), proto.dec(args[1])
+        return 'ok I:%d' % (-1 if a < b else 1 if a > b else 0)
     if op == 'sort':
         return 'ok ' + enc(pyg_base.sort(proto.dec(args[0])))
     if op == 'sortidx':
@@ -127,6 +155,14 @@ def run_line(state, sx):
         res = d.sort(*by)
         res2 = res.sort(*by)
         if list(res2['i']) != list(res['i']):
+            raise AssertionError('dictable.sort not idempotent')
+        return 'ok ' + enc(list(res['i']))
+    if op == 'sortfn':
+        keys = proto.dec(args[0])
+        fn = {'swap': lambda k0, k1: (k1, k0), 'first': lambda k0: k0, 'pair': lambda k0, k1: [k0, k1]}[args[1]]
+        d = dictable(dict(k0=[k[0] for k in keys], k1=[k[1] for k in keys], i=list(range(len(keys)))))
+        res = d.sort(fn)
+        if list(res.sort(fn)['i']) != list(res['i']):
             raise AssertionError('dictable.sort not idempotent')
         return 'ok ' + enc(list(res['i']))
     if op == 'byvalidx':
@@ -147,6 +183,8 @@ def compare(case, i, line, ir, mr):
         if not ir.startswith('ok'):
             return 'cmp did not return -1/0/1: %s (model: %s)' % (ir, mr)
         return ('divergence', 'cmp returned %s, model %s' % (ir, mr))
+    if line.startswith('(cmp native '):
+        return ('divergence', "python's native comparison gives %s, the reference model Cell.native / nativeArr %s (an assumption about CPython, not a clause of the property)" % (ir, mr))
     # sort / dictable.sort: the model's answer is the unique stable sort under the MODEL's cmp.  Decide the statement with the
     # implementation's own cmp: if the output is a correctly ordered (stable) permutation under it, model and code merely diverge.
     bad = statement_fails(line, ir)
@@ -171,9 +209,12 @@ def statement_fails(line, ir):
         if any(pyg_base.cmp(a, b) == 1 for a, b in zip(out, out[1:])):
             return 'sort result is not non-decreasing under cmp'
         return None
-    if op in ('sortidx', 'byvalidx'):
+    if op in ('sortidx', 'byvalidx', 'sortfn'):
         if op == 'sortidx':
             keys = proto.dec(sx[2])
+        elif op == 'sortfn':
+            ks = proto.dec(sx[2])
+            keys = [{'swap': lambda k: (k[1], k[0]), 'first': lambda k: k[0], 'pair': lambda k: [k[0], k[1]]}[sx[3]](k) for k in ks]
         else:
             orders, rows = proto.dec(sx[2]), proto.dec(sx[3])
             keys = [[(o.index(x) if x in o else len(o)) for o, x in zip(orders, r)] for r in rows]
